@@ -147,6 +147,18 @@ SimNext ==
 SimSpec == Init /\ [][SimNext]_vars
 
 NoFailure == bad = {}
+
+(* transition cover: with ACTION_CONSTRAINT EmitEdge TLC prints every generated transition as   *)
+(* (prologue number, entries after the prologue); the check replays each on the real server.     *)
+Slim(e) == IF e.t = "config" THEN e
+           ELSE [t |-> e.t, id |-> e.id, sess |-> e.sess, ts |-> e.ts, cmid |-> e.cmid, addr |-> e.addr,
+                 data |-> e.data, capok |-> e.capok, sup |-> TRUE, conf |-> TRUE]
+ProIdx(h, k) == CHOOSE j \in Prologues : Len(Prologue[j]) = Len(h) - k /\ SubSeq(h, 1, Len(Prologue[j])) = Prologue[j]
+EmitEdge ==
+  LET j == ProIdx(hist', n') IN
+  PrintT(<<"EDGE", ToJson([pro |-> j, es |-> [i \in 1..n' |-> Slim(hist'[Len(Prologue[j]) + i])]])>>)
+EmitPrologues == \A j \in Prologues : PrintT(<<"PROLOGUE", j, ToJson(Prologue[j])>>)
+ASSUME EmitPrologues
 (* the service-bag replies (SERVER burst) are appended for the recipient predicates *)
 
 =============================================================================
